@@ -25,6 +25,7 @@ type Plan struct {
 	IOFaults  []IOFault  `json:"io_faults,omitempty"`
 	Stalls    []Stall    `json:"stalls,omitempty"`
 	Streams   []StreamCut `json:"stream,omitempty"`
+	Reactions []Reaction  `json:"reactions,omitempty"` // scripted server behaviour (client-side worlds)
 
 	QuietNS int64 `json:"quiet_ns,omitempty"` // virtual time to keep running after the last op
 
@@ -139,6 +140,15 @@ type IOFault struct {
 type Stall struct {
 	M      Match  `json:"match"`
 	ParkNS int64  `json:"park_ns"`
+}
+
+// Reaction tells the scripted TURN server how to treat a request.
+type Reaction struct {
+	Method  string `json:"method,omitempty"`  // binding|allocate|refresh|createperm|chanbind|connect ("" = any)
+	Txn     int    `json:"txn,omitempty"`     // n-th distinct transaction of that method (0 = any)
+	Attempt int    `json:"attempt,omitempty"` // k-th transmission of the transaction (0 = any)
+	Do      string `json:"do"`                // ok | drop | err:<code> | wrongtid | dup | stale
+	DelayNS int64  `json:"delay_ns,omitempty"`
 }
 
 type StreamCut struct {
